@@ -10,4 +10,5 @@ Extraction "model.ml"
   monitor_trace classes_trace smonitor_trace run_pipe_spec
   trun tcheck tinit tstep1 tfinished ttrace
   chain_net chain_step chain_trace chain_idle chain_viols
+  tree_net tree_step tree_trace tree_viols tree_edges_ok
   enabled_on_trace conformant_trace.
